@@ -638,11 +638,10 @@ Example unlocked_dimension_save_fails_lockset : lockset_thread (evict_task CDims
 Proof. reflexivity. Qed.
 (* ... and such a table does race: an ingest inserting into dimension 0 next to a saver reading it *)
 Example unlocked_dimension_save_races :
-  racing (run_sched [0; 0; 0; 0; 0; 0; 0; 0; 0; 0; 0; 0; 0; 0; 0; 0]
-            (init_config [put_thread 0 [0] []; save_dimension_unlocked 0])).
+  racing (run_sched (repeat 0 19) (init_config [put_thread 0 [0] []; save_dimension_unlocked 0])).
 Proof.
   exists 0, 1. eexists. eexists. exists (LocDimKeys 0), true, false.
-  split; [discriminate|]. cbn. repeat split; auto.
+  split; [discriminate|]. vm_compute. repeat split; auto.
 Qed.
 (* before 560e1ec: Intersection kept the read locks of all its dimensions, in the caller's map order: not ordered,
    and with two renders in opposite orders, an ingest (Dimension.Insert) and a delete (Dimension.Delete) the
@@ -658,4 +657,152 @@ Proof. reflexivity. Qed.
 Example repaired_table_same_schedule :
   stuck (run_sched [0; 1; 0; 1; 2; 3] (init_config
     [get_thread 0 [0; 1] []; get_thread 0 [1; 0] []; put_thread 0 [0] []; delete_thread 1 [1] []])) = false.
+Proof. reflexivity. Qed.
+
+(* ---- COARSE model: atomic reads and the quiescent sum ------------------------------------------------------------------------ *)
+From Coq Require Import Permutation.
+
+Record cinv (s : cstate) : Prop := {
+  ci_nodup_started : NoDup (c_started s);
+  ci_nodup_applied : NoDup (c_applied s);
+  ci_ended_applied : incl (c_ended s) (c_applied s);
+  ci_applied_started : incl (c_applied s) (c_started s);
+  ci_rstarted : forall r E, In (r, E) (r_started s) -> incl E (c_applied s);
+  ci_rread_prefix : forall r S, In (r, S) (r_read s) -> exists rest, c_applied s = S ++ rest;
+  ci_rread_lower : forall r S E, In (r, S) (r_read s) -> In (r, E) (r_started s) -> incl E S;
+  ci_rread_started : forall r S, In (r, S) (r_read s) -> memk r (r_started s) = true;
+  ci_rended_upper : forall r S T, In (r, T) (r_ended s) -> In (r, S) (r_read s) -> incl S T;
+  ci_rended_read : forall r T, In (r, T) (r_ended s) -> memk r (r_read s) = true
+}.
+
+Lemma memn_in : forall x l, memn x l = true <-> In x l.
+Proof.
+  intros x l. unfold memn. rewrite existsb_exists. split.
+  - intros [y [Hy E]]. apply Nat.eqb_eq in E. subst. exact Hy.
+  - intro H. exists x. split; auto. apply Nat.eqb_refl.
+Qed.
+Lemma memk_false : forall x l E, memk x l = false -> ~ In (x, E) l.
+Proof.
+  intros x l E H Hin. unfold memk in H.
+  assert (existsb (fun p => Nat.eqb x (fst p)) l = true).
+  { apply existsb_exists. exists (x, E). split; auto. cbn. apply Nat.eqb_refl. }
+  congruence.
+Qed.
+
+Lemma nodup_snoc : forall (l : list nat) x, NoDup l -> ~ In x l -> NoDup (l ++ [x]).
+Proof.
+  induction l as [|y l IH]; intros x ND Hn; cbn.
+  - constructor; auto; constructor.
+  - inversion ND; subst. constructor.
+    + intro Hin. apply in_app_or in Hin as [Hin | [<- | []]]; auto. apply Hn. left. reflexivity.
+    + apply IH; auto. intro Hin. apply Hn. right. exact Hin.
+Qed.
+
+Lemma cinv_init : cinv c_init.
+Proof.
+  constructor; cbn; try (constructor; fail); try (intros; contradiction); intros ? [].
+Qed.
+
+Lemma cinv_step : forall s e, cinv s -> cinv (c_step s e).
+Proof.
+  intros s e I. destruct I. destruct e as [g | g | g | r | r | r]; cbn.
+  - (* WStart *)
+    destruct (memn g (c_started s)) eqn:M; [constructor; auto|].
+    constructor; cbn; auto.
+    + constructor; auto. intro Hin. apply memn_in in Hin. congruence.
+    + intros x Hx. right. auto.
+  - (* WApply *)
+    destruct (memn g (c_started s) && negb (memn g (c_applied s))) eqn:M; [|constructor; auto].
+    apply andb_true_iff in M as [M1 M2]. apply negb_true_iff in M2. apply memn_in in M1.
+    constructor; cbn; auto.
+    + apply nodup_snoc; auto. intros Hin. apply memn_in in Hin. congruence.
+    + intros x Hx. apply in_or_app. left. auto.
+    + intros x Hx. apply in_app_or in Hx as [Hx | [<- | []]]; auto.
+    + intros r E Hin x Hx. apply in_or_app. left. eapply ci_rstarted0; eauto.
+    + intros r S Hin. destruct (ci_rread_prefix0 r S Hin) as [rest Hr]. exists (rest ++ [g]).
+      rewrite Hr. rewrite app_assoc. reflexivity.
+  - (* WEnd *)
+    destruct (memn g (c_applied s) && negb (memn g (c_ended s))) eqn:M; [|constructor; auto].
+    apply andb_true_iff in M as [M1 M2]. apply memn_in in M1.
+    constructor; cbn; auto.
+    intros x [<- | Hx]; auto.
+  - (* RStart *)
+    destruct (memk r (r_started s)) eqn:M; [constructor; auto|].
+    constructor; cbn; auto.
+    + intros r' E [Heq | Hin]; [inversion Heq; subst; auto | eauto].
+    + intros r' S E Hs [Heq | Hin]; [|eauto].
+      inversion Heq; subst. exfalso. apply ci_rread_started0 in Hs. congruence.
+    + intros r' S Hs. pose proof (ci_rread_started0 r' S Hs) as Q. unfold memk in *. cbn. rewrite Q. apply orb_true_r.
+  - (* RRead *)
+    destruct (memk r (r_started s) && negb (memk r (r_read s))) eqn:M; [|constructor; auto].
+    apply andb_true_iff in M as [M1 M2]. apply negb_true_iff in M2.
+    constructor; cbn; auto.
+    + intros r' S [Heq | Hin]; [inversion Heq; subst; exists []; rewrite app_nil_r; reflexivity | eauto].
+    + intros r' S E [Heq | Hin] HE; [inversion Heq; subst; eapply ci_rstarted0; eauto | eauto].
+    + intros r' S [Heq | Hin]; [inversion Heq; subst; auto | eauto].
+    + intros r' S T HT [Heq | Hin]; [|eauto].
+      inversion Heq; subst. exfalso. apply ci_rended_read0 in HT. congruence.
+    + intros r' T HT. pose proof (ci_rended_read0 r' T HT) as Q. unfold memk in *. cbn. rewrite Q. apply orb_true_r.
+  - (* REnd *)
+    destruct (memk r (r_read s) && negb (memk r (r_ended s))) eqn:M; [|constructor; auto].
+    constructor; cbn; auto.
+    + intros r' S T [Heq | Hin] HS; [|eauto].
+      inversion Heq; subst. destruct (ci_rread_prefix0 r' S HS) as [rest Hr].
+      intros x Hx. apply ci_applied_started0. rewrite Hr. apply in_or_app. left. exact Hx.
+    + intros r' T [Heq | Hin]; [|eauto].
+      inversion Heq; subst. apply andb_true_iff in M. tauto.
+Qed.
+
+Lemma cinv_run_from : forall evs s, cinv s -> cinv (fold_left c_step evs s).
+Proof. induction evs as [|e evs IH]; intros s I; cbn; auto. apply IH. apply cinv_step. exact I. Qed.
+
+Lemma cinv_run : forall evs, cinv (c_run evs).
+Proof. intro. apply cinv_run_from. apply cinv_init. Qed.
+
+(* a render returns the state after a whole number of ingests (a prefix of the application order), containing at
+   least the ingests acknowledged before it was called and at most those called before it returned *)
+Theorem atomic_read : forall evs r S,
+  let s := c_run evs in
+  In (r, S) (r_read s) ->
+  (exists rest, c_applied s = S ++ rest) /\
+  (forall E, In (r, E) (r_started s) -> incl E S) /\
+  (forall T, In (r, T) (r_ended s) -> incl S T).
+Proof.
+  intros evs r S s H. pose proof (cinv_run evs) as I. fold s in I. destruct I.
+  split; [eauto|]. split; intros; eauto.
+Qed.
+
+Lemma sumw_perm : forall w a b, Permutation a b -> sumw w a = sumw w b.
+Proof.
+  intros w a b P. induction P; auto.
+  - change (sumw w (x :: l)) with (w x + sumw w l)%N. change (sumw w (x :: l')) with (w x + sumw w l')%N.
+    rewrite IHP. reflexivity.
+  - change (sumw w (y :: x :: l)) with (w y + (w x + sumw w l))%N.
+    change (sumw w (x :: y :: l)) with (w x + (w y + sumw w l))%N. lia.
+  - rewrite IHP1. exact IHP2.
+Qed.
+
+(* once every ingest that was called has returned, the series holds each of them exactly once: its content is the
+   sequential sum, whatever the interleaving was *)
+Theorem quiescent_sum : forall evs w,
+  let s := c_run evs in
+  (forall g, In g (c_started s) -> In g (c_ended s)) ->
+  NoDup (c_applied s) /\ Permutation (c_applied s) (c_started s) /\ sumw w (c_applied s) = sumw w (c_started s).
+Proof.
+  intros evs w s H. pose proof (cinv_run evs) as I. fold s in I. destruct I.
+  assert (P : Permutation (c_applied s) (c_started s)).
+  { apply NoDup_Permutation; auto. intro x. split; [apply ci_applied_started0|].
+    intro Hx. apply ci_ended_applied0. apply H. exact Hx. }
+  split; auto. split; auto. apply sumw_perm. exact P.
+Qed.
+
+(* non-vacuity: two writers, one render overlapping both; and the two-section read of the old Storage.Get *)
+Example coarse_nonvacuous :
+  let s := c_run [WStart 1; WApply 1; WEnd 1; RStart 7; WStart 2; WApply 2; RRead 7; WStart 3; WEnd 2; REnd 7; WApply 3; WEnd 3] in
+  r_read s = [(7, [1; 2])] /\ r_started s = [(7, [1])] /\ r_ended s = [(7, [3; 2; 1])] /\ c_applied s = [1; 2; 3] /\
+  (forall g, In g (c_started s) -> In g (c_ended s)).
+Proof. cbn. repeat split; auto. Qed.
+
+Example two_sections_see_different_states :
+  r_read (c_run two_sections_example) = [(11, [1]); (10, [])].
 Proof. reflexivity. Qed.
